@@ -256,9 +256,19 @@ def _run_one(args):
         os.chdir(ctx.tmp)
         mod.run_job(job, ctx)
         res = ctx.result()
-    except Exception:  # harness bug: never silently dropped
-        res = ctx.result()
-        res["harness_error"] = "job %s: %s" % (job.get("name"), traceback.format_exc())
+    except Exception as exc:  # noqa
+        tb = traceback.extract_tb(exc.__traceback__)
+        lib = os.path.join(REPO, "cincoconfig") + os.sep
+        if tb and tb[-1].filename.startswith(lib):
+            # the library raised in a step the job treats as plain set-up (it never does on code where the property
+            # holds): report it against the property instead of dying, replayable as the whole job
+            ctx.violation("%s|uncaught-library-exception|%s|%s" % (mod.PROP, type(exc).__name__, os.path.basename(tb[-1].filename)),
+                          "job %s: a set-up step raised inside the library: %r (at %s:%d)" % (job.get("name"), exc, tb[-1].filename[len(lib):], tb[-1].lineno),
+                          {"whole_job": {k: v for k, v in job.items() if k != "single"}, "job": job.get("name")})
+            res = ctx.result()
+        else:       # harness bug: never silently dropped
+            res = ctx.result()
+            res["harness_error"] = "job %s: %s" % (job.get("name"), traceback.format_exc())
     finally:
         os.chdir(cwd)
         shutil.rmtree(ctx.tmp, ignore_errors=True)
